@@ -155,7 +155,9 @@ def c07_3(c: Ctx) -> None:
             ai = AbsInt(calls=FWD_OVERRIDES)
             v = ai.truth(ai.ev(expr, {hp: h}))
             if v is None:
-                raise AnalysisError(f'forwarding predicate {label}: undecided for {desc}')
+                # not a self-contained predicate (it refers to other locals, e.g. a condition split into named steps): the behaviour is decided by C07.2's cases
+                c.note(f'forwarding predicate `{label}` is not self-contained ({desc}); decided through C07.2')
+                break
             if v == want:
                 c.ok(where(u, expr), f'{label}: {desc} -> {v}')
             else:
